@@ -473,6 +473,8 @@ def gen_graph(rng, size="small", big_blobs=False):
             parents = rng.sample(commits, rng.randrange(3, min(len(commits), 6) + 1))
         else:
             parents = rng.sample(commits, min(len(commits), rng.choice([1, 1, 2, 2, 3])))
+        if parents and rng.random() < 0.08:
+            parents = parents + [rng.choice(parents)]      # the same parent listed twice (git accepts such commits)
         # skewed dates: children may be older than their parents
         date += rng.choice([100, 100, -500, 0, 1000])
         extra = b""
